@@ -551,7 +551,7 @@ func rawStream(s mconnSpec) [][]byte {
 	case "never-ending":
 		var out [][]byte
 		out = append(out, rawPacket(int32(chanIDs[1]), false, b[:mp])) // an unfinished message on another channel
-		out = append(out, splitPackets(chanIDs[2], a)...)               // a complete one
+		out = append(out, splitPackets(chanIDs[2], a)...)              // a complete one
 		n := capacity/mp + 2 + s.Param
 		for i := 0; i < n; i++ {
 			out = append(out, rawPacket(int32(chanIDs[0]), false, pattern(i, mp)))
